@@ -82,7 +82,7 @@ func runC02(t *testing.T, seed uint64, planJSON []byte, tier string) (res *Resul
 		plan.Opts.ContinueAfterError = false
 		plan.Episodes[0].RetryOnce = plan.Opts.DedicatedConn
 	}
-	res.Harness = runBubble(t, func(t *testing.T) {
+	res.Harness = runBubbleP(t, plan, func(t *testing.T) {
 		r := setupAT(seed, tape, plan, "C02", res)
 		if r == nil {
 			return
